@@ -301,6 +301,20 @@ public:
         return write(chars, start, length, m_charRefFunctor);
     }
 
+    /**
+     * Writes a character of a comment or a processing instruction, where
+     * a character reference would not be recognized.  If the character is
+     * not representable, an exception is thrown.
+     */
+    size_type
+    writeNoCharRef(
+            const XalanDOMChar  chars[],
+            size_type           start,
+            size_type           length)
+    {
+        return write(chars, start, length, m_exceptionFunctor);
+    }
+
     void
     writeSafe(
             const XalanDOMChar*     theChars,
